@@ -1,6 +1,7 @@
 import Driver.Util
 import Driver.AggRetrieval
 import MlModel.Model.Agg.ThrHeap
+import MlModel.Model.Agg.CmStateHeap
 open Lean MlModel MlModel.Agg MlModel.Agg.Heap
 namespace Driver.AggObs
 
@@ -102,6 +103,23 @@ def thrObs (ts : List Rat) (ms : List (Thr.Kind × Option Rat)) : ObsClass Thr.H
     | .rat xs => .rat (xs.map fun _ => (v : Rat))
   parseBatch := fun j => do (← j.getArr?).toList.mapM Driver.AggRetrieval.parseThrRow
 
+/-! ### ConfusionMatrixAggFn state API -/
+
+open MlModel.Agg.Confusion in
+def cmStateObs : ObsClass SH.Cell SH.Batch where
+  cls := SH.cls true
+  pub := fun (s : SH.St) => SH.stRefs s          -- state.tp, .tn, .fp, .fn
+  scalars := fun _ => []
+  addErr := fun _ _ _ => none
+  mergeErr := fun _ _ _ => none
+  cellJson := fun (c : List Int) => toJson c
+  fill := fun v (c : List Int) => c.map fun _ => v
+  parseBatch := fun j => do
+    let a ← Driver.getArr j "cm"
+    if a.size != 4 then throw "cm: four arrays expected"
+    let f := fun (x : Json) => do (← x.getArr?).toList.mapM (·.getInt?)
+    return ⟨← f a[0]!, ← f a[1]!, ← f a[2]!, ← f a[3]!⟩
+
 def handle (j : Json) : Except String Json := do
   let cls ← Driver.getStr j "cls"
   let prog := (← Driver.getArr j "prog").toList
@@ -116,6 +134,7 @@ def handle (j : Json) : Except String Json := do
         | v => do pure (some (← Driver.AggRetrieval.ratOf v))
       pure (k, t)
     runObs (thrObs ts ms) prog
+  | "cmstate" => runObs cmStateObs prog
   | s => throw s!"unknown class {s}"
 
 end Driver.AggObs
